@@ -43,6 +43,12 @@ func fixHistories() []string {
 		"202001011020200101;20200101~000000000", // replace then remove
 		"209912310120991231;209912300120991231", // two adds, second earlier than first
 		"20191001~000000000202210010120221001", // remove + replace in one call
+		// extended name table (N<k>@ = the built-in names plus k custom ones are passed with that call): name indices 9 and 10
+		// (encoded '9' and ':'), then replace and remove such records
+		"N2@20210312:120210312",
+		"N2@20210312:120210312;202103129020210308",
+		"N2@20210312:120210312;202103129020210308;20210312:120210312;20210312~000000000",
+		"N3@202103139120210313;20210313~000000000",
 	)
 	return h
 }
@@ -73,7 +79,17 @@ func genHoliday() {
 							ok = false
 						}
 					}()
-					HolidayUtil.Fix(nil, dt)
+					var names []string
+					if strings.HasPrefix(dt, "N") && strings.Contains(dt, "@") {
+						var k int
+						fmt.Sscanf(dt[1:strings.Index(dt, "@")], "%d", &k)
+						names = append(names, HolidayUtil.NAMES...)
+						for j := 1; j <= k; j++ {
+							names = append(names, fmt.Sprintf("X%d", j))
+						}
+						dt = dt[strings.Index(dt, "@")+1:]
+					}
+					HolidayUtil.Fix(names, dt)
 				}()
 			}
 			if !ok {
